@@ -124,6 +124,49 @@ fn main() {
         Some("exec-history") => {
             c15::exec_history_main();
         }
+        Some("determinism") => {
+            // every seed executed in PROCS concurrent processes and once pinned to one core;
+            // all event-log hashes must agree
+            let id = args.get(2).cloned().unwrap_or_default();
+            let n: u64 = args.get(3).and_then(|s| s.parse().ok()).unwrap_or(500);
+            let procs: usize = args.get(4).and_then(|s| s.parse().ok()).unwrap_or(24);
+            let base: u64 = std::env::var("VERIF_SEED").ok().and_then(|s| s.parse().ok()).unwrap_or(1);
+            let seeds: Vec<String> = (0..n).map(|i| check::seed_for(base, &id, i).to_string()).collect();
+            let exe = std::env::current_exe().unwrap();
+            let t = std::time::Instant::now();
+            let mut children = vec![];
+            for p in 0..=procs {
+                let mut cmd = if p == procs {
+                    let mut c = std::process::Command::new("taskset");
+                    c.args(["-c", "0"]).arg(&exe);
+                    c
+                } else {
+                    std::process::Command::new(&exe)
+                };
+                cmd.args(["hashes", &id, "quick"]).args(&seeds).stdout(std::process::Stdio::piped());
+                children.push(cmd.spawn().expect("spawn"));
+            }
+            let outs: Vec<String> = children.into_iter().map(|c| String::from_utf8_lossy(&c.wait_with_output().expect("wait").stdout).to_string()).collect();
+            let mut bad = 0;
+            for (i, o) in outs.iter().enumerate().skip(1) {
+                if *o != outs[0] {
+                    bad += 1;
+                    let l0: Vec<&str> = outs[0].lines().collect();
+                    let li: Vec<&str> = o.lines().collect();
+                    let first = l0.iter().zip(li.iter()).position(|(a, b)| a != b);
+                    println!("MISMATCH process {i}: first differing line {:?} (lines {} vs {})", first, l0.len(), li.len());
+                }
+            }
+            let distinct: std::collections::HashSet<&str> = outs[0].lines().collect();
+            println!(
+                "determinism {id}: seeds={n} processes={} (+1 pinned to one core) lines={} distinct_hash_lines={} mismatching_processes={bad} wall={:.1}s",
+                procs,
+                outs[0].lines().count(),
+                distinct.len(),
+                t.elapsed().as_secs_f64()
+            );
+            std::process::exit(if bad == 0 && outs[0].lines().count() as u64 == n { 0 } else { 2 });
+        }
         Some("gen") => {
             let id = args.get(2).cloned().unwrap_or_default();
             let Some(c) = get_check(&id) else { std::process::exit(2) };
